@@ -229,3 +229,211 @@ def run(ctx) -> None:  # noqa: F811
 
     c38._own(OnlyConstructs(ctx, ("abtem.measurements.",)), ctx.repo)
     _inner_run_c32(ctx)
+
+
+# ---- added after the mutation sweep: what a method writes into its result is not the receiver's metadata
+_inner_run_c32_sweep = run
+
+_OPERATOR_METHODS = {ast.Sub: "__sub__", ast.Add: "__add__", ast.Mult: "__mul__", ast.Div: "__truediv__",
+                     ast.Pow: "__pow__"}
+_META = ("metadata", "_metadata")
+
+
+def _meta_expr_fresh(f: FuncInfo, df: DataFlow, at: int, e: ast.expr, depth: int = 0):
+    """True: a new dict; False: the receiver's own dict; None: not decided."""
+    if depth > 6:
+        return None
+    d = dotted(e)
+    if d in ("self.metadata", "self._metadata"):
+        return False
+    if isinstance(e, (ast.Dict, ast.DictComp)):
+        return True
+    if isinstance(e, ast.Constant) and e.value is None:
+        return True  # the constructor then creates an empty dict
+    if isinstance(e, ast.Call):
+        cn = (dotted(e.func) or "")
+        if cn.split(".")[-1] in ("deepcopy", "dict") or (cn.split(".")[-1] == "copy" and (e.args or isinstance(
+                e.func, ast.Attribute))):
+            return True
+        return None
+    if isinstance(e, ast.Name):
+        res = []
+        for dd in df.reaching(at, e.id):
+            if dd.kind != "assign" or dd.value is None:
+                return None
+            res.append(_meta_expr_fresh(f, df, dd.node, dd.value, depth + 1))
+        if False in res:
+            return False
+        return True if res and all(r is True for r in res) else None
+    return None
+
+
+def _result_metadata(cls, m: FuncInfo, depth: int = 0):
+    """Does the object returned by method `m` carry a metadata dict of its own?  (True / False / None=undecided, text)"""
+    if depth > 4:
+        return None, "delegation too deep"
+    df = DataFlow(m.node)
+    rets = [r for r in walk_no_nested(m.node) if isinstance(r, ast.Return) and r.value is not None]
+    if not rets:
+        return None, "no return value"
+    verdicts = []
+    for r in rets:
+        at = df.cfg.node_of(r).idx
+        v = r.value
+        hops = 0
+        while isinstance(v, ast.Name) and hops < 4:
+            d = df.single_def(at, v.id)
+            if d is None or d.value is None:
+                break
+            v, at, hops = d.value, d.node, hops + 1
+        if dotted(v) == "self":
+            verdicts.append((False, "returns the receiver itself"))
+            continue
+        if not isinstance(v, ast.Call):
+            verdicts.append((None, f"returns `{norm_text(v)[:40]}`"))
+            continue
+        fn = dotted(v.func) or ""
+        is_ctor = fn in ("self.__class__", "cls") or (isinstance(v.func, ast.Call) and dotted(v.func.func) == "type") or (
+            fn and fn[0].isupper() and "." not in fn)
+        if not is_ctor:
+            if fn.startswith("self.") and fn.count(".") == 1:
+                callee = cls.find_method(fn[5:])
+                if callee is not None and callee.node is not m.node:
+                    verdicts.append(_result_metadata(cls, callee, depth + 1))
+                    continue
+            verdicts.append((None, f"returns `{norm_text(v)[:40]}`"))
+            continue
+        # constructor call: explicit metadata=..., or **kwargs built from _copy_kwargs
+        explicit = next((k.value for k in v.keywords if k.arg == "metadata"), None)
+        if explicit is not None:
+            verdicts.append((_meta_expr_fresh(m, df, at, explicit), f"metadata={norm_text(explicit)[:40]}"))
+            continue
+        stars = [k.value for k in v.keywords if k.arg is None]
+        if len(stars) != 1 or not isinstance(stars[0], ast.Name):
+            verdicts.append((None, f"constructor call `{norm_text(v)[:50]}`"))
+            continue
+        kwname = stars[0].id
+        base = None  # the dict comes from self._copy_kwargs(...): deep copies of every constructor argument
+        for d in df.reaching(at, kwname):
+            if d.kind == "assign" and d.strong and isinstance(d.value, ast.Call) and (dotted(d.value.func) or "").endswith(
+                    "._copy_kwargs") and (dotted(d.value.func) or "").startswith("self."):
+                base = True if base in (None, True) else base
+            elif d.kind in ("store", "call"):
+                continue
+            else:
+                base = False
+        stores = []
+        for st in walk_no_nested(m.node):
+            if isinstance(st, ast.Assign) and isinstance(st.targets[0], ast.Subscript) and dotted(
+                    st.targets[0].value) == kwname and isinstance(st.targets[0].slice, ast.Constant) and \
+                    st.targets[0].slice.value == "metadata":
+                stores.append(st)
+            if isinstance(st, ast.Expr) and isinstance(st.value, ast.Call) and isinstance(st.value.func, ast.Attribute) \
+                    and st.value.func.attr == "update" and dotted(st.value.func.value) == kwname:
+                verdicts.append((None, f"`{norm_text(st)[:40]}`"))
+        if stores:
+            res = [_meta_expr_fresh(m, df, df.cfg.node_of(st).idx, st.value) for st in stores]
+            verdicts.append((False if False in res else (True if all(x is True for x in res) else None),
+                             f"{kwname}['metadata'] = {norm_text(stores[0].value)[:40]}"))
+        elif base:
+            verdicts.append((True, "constructor arguments are the deep copies made by _copy_kwargs"))
+        else:
+            verdicts.append((None, f"origin of **{kwname} not recognised"))
+    if any(v is False for v, _ in verdicts):
+        return False, next(t for v, t in verdicts if v is False)
+    if all(v is True for v, _ in verdicts):
+        return True, verdicts[0][1]
+    return None, next(t for v, t in verdicts if v is None)
+
+
+def _fresh_result(ctx) -> None:
+    from ..model import AnalysisError
+
+    repo = ctx.repo
+    ao = repo.cls("abtem.array", "ArrayObject")
+    bm = repo.cls("abtem.measurements", "BaseMeasurements")
+    wv = repo.cls("abtem.waves", "Waves")
+    classes = [c for c in repo.all_classes() if bm in c.mro() or c in (ao, wv)]
+    n = 0
+    done: set[str] = set()
+    _copy_kwargs_deep(ctx, ao)
+    for c in classes:
+        for name, defs in c.methods.items():
+            for f in defs:
+                df = None
+                for st in walk_no_nested(f.node):
+                    recv = None
+                    if isinstance(st, (ast.Assign, ast.AugAssign)):
+                        t = st.targets[0] if isinstance(st, ast.Assign) else st.target
+                        if isinstance(t, ast.Subscript) and isinstance(t.value, ast.Attribute) and t.value.attr in _META:
+                            recv = t.value.value
+                    elif isinstance(st, ast.Expr) and isinstance(st.value, ast.Call) and isinstance(
+                            st.value.func, ast.Attribute) and st.value.func.attr in DICT_LIST_MUTATORS and isinstance(
+                            st.value.func.value, ast.Attribute) and st.value.func.value.attr in _META:
+                        recv = st.value.func.value.value
+                    if not isinstance(recv, ast.Name) or recv.id in ("self", "cls"):
+                        continue
+                    df = df or DataFlow(f.node)
+                    at = df.cfg.node_of(st).idx
+                    for d in df.reaching(at, recv.id):
+                        v = d.value
+                        callee = None
+                        if d.kind == "assign" and isinstance(v, ast.Call) and (dotted(v.func) or "").startswith("self.") \
+                                and (dotted(v.func) or "").count(".") == 1:
+                            callee = c.find_method(dotted(v.func)[5:])
+                        elif d.kind == "assign" and isinstance(v, ast.BinOp) and dotted(v.left) == "self" and \
+                                type(v.op) in _OPERATOR_METHODS:
+                            callee = c.find_method(_OPERATOR_METHODS[type(v.op)])
+                        elif d.kind == "param":
+                            continue  # an argument object: R-OWN-RECEIVER / the caller's business
+                        if callee is None:
+                            continue  # objects built otherwise (constructors, functions) are not the receiver's
+                        verdict, why = _result_metadata(c, callee)
+                        if verdict is None:
+                            raise AnalysisError(f"{f.qualname}: cannot decide whether the result of {callee.short}() has "
+                                                f"its own metadata ({why})")
+                        construct = f"{f.qualname}:metadata of the result of {callee.name}"
+                        if construct in done:
+                            continue
+                        done.add(construct)
+                        n += 1
+                        ctx.check(verdict, "R-FRESH-RESULT", construct,
+                                  f.loc(st), f"written into a dict of its own ({why})",
+                                  f"`{norm_text(st)[:60]}` writes into the metadata of the object returned by "
+                                  f"{callee.short}(), which is the receiver's own dict ({why}): calling {f.short}() changes "
+                                  "the metadata of the measurement it was called on", key_detail="shared")
+    ctx.require(n >= 1, f"R-FRESH-RESULT matched only {n} methods writing into the metadata of a derived measurement")
+
+
+def _copy_kwargs_deep(ctx, ao) -> None:
+    """Premise of the above: the dict returned by _copy_kwargs holds copies, not the receiver's own attribute values."""
+    ck = ao.find_method("_copy_kwargs")
+    ctx.require(ck is not None, "ArrayObject has no _copy_kwargs")
+    df = DataFlow(ck.node)
+    rets = [r for r in walk_no_nested(ck.node) if isinstance(r, ast.Return) and r.value is not None]
+    ctx.require(rets, f"{ck.qualname}: no return value")
+    for r in rets:
+        v, at = r.value, df.cfg.node_of(r).idx
+        if isinstance(v, ast.Name):
+            d = df.single_def(at, v.id)
+            ctx.require(d is not None and d.value is not None, f"{ck.qualname}: returned dict has several definitions")
+            v = d.value
+        ctx.require(isinstance(v, ast.DictComp), f"{ck.qualname}: the returned value is not a dict comprehension")
+        val = v.value
+        copied = isinstance(val, ast.Call) and (dotted(val.func) or "").split(".")[-1] in ("deepcopy",) and val.args and \
+            isinstance(val.args[0], ast.Call) and dotted(val.args[0].func) == "getattr"
+        ctx.check(copied, "R-FRESH-RESULT", f"{ck.qualname}:values", ck.loc(r),
+                  "every value is deepcopy(getattr(self, key))",
+                  f"the values of the returned dict are `{norm_text(val)[:60]}`, not deep copies: objects built from them "
+                  "share metadata / axes metadata with the receiver, and the methods that relabel their result relabel "
+                  "the receiver", key_detail="deepcopy")
+
+
+def run(ctx) -> None:  # noqa: F811
+    ctx.rule("R-FRESH-RESULT", "a measurement method that derives a new object from the receiver (new = self.m(...) or "
+             "self <op> other) and then writes into new.metadata must get, from m, an object whose metadata dict is not "
+             "the receiver's: m returns cls(**kwargs) with kwargs from self._copy_kwargs (deep copies) and no "
+             "kwargs['metadata'] = self.metadata, or an explicit metadata=<copy / new dict>.  Otherwise real(), imag(), "
+             "phase(), abs(), intensity(), relative_difference() relabel the measurement they were called on")
+    _fresh_result(ctx)
+    _inner_run_c32_sweep(ctx)
